@@ -308,3 +308,241 @@ func init() {
 		return out.String()
 	}
 }
+
+// ---------------------------------------------------------------------------------------------------
+// GcPkgMap (property C25, follow-up 2): the package side of the graph that targetsToRemove enumerates
+// its roots over.  gc.go ranges over graph.PackageMap() - twice - to find every package's subincludes
+// and to expand a named `//pkg/...` root; a package that PackageMap() loses is a set of roots lost.
+//
+//   - the key PackageMap() files a package under (src/core/graph.go) is TRANSLATED into the Gallina
+//     function pkgmap_key over the package's subrepo name and name;
+//   - packageKey.String() (src/core/build_label.go), which that key expression calls, is TRANSLATED
+//     into package_key_string (an if/return chain over string comparisons and concatenations);
+//   - the key AddPackage stores a package under (the packageKey struct: a pair) is TRANSLATED into
+//     store_key;
+//   - the statements around them (the loop of PackageMap, the Add-or-panic of AddPackage) are pinned.
+//
+// Proof/C25_PkgMap.v proves, about these generated functions, that PackageMap() loses no package of
+// the graph (pkgmap_key is injective on well-formed names that differ as store keys).
+
+// gccStrExpr translates a Go string expression into a Gallina term of type str.  Understood: string
+// literals, +, parentheses, the given atoms, and packageKey{Subrepo: a, Name: b}.String().
+func gccStrExpr(what string, e ast.Expr, atoms map[string]string) string {
+	switch x := e.(type) {
+	case *ast.ParenExpr:
+		return gccStrExpr(what, x.X, atoms)
+	case *ast.BasicLit:
+		if x.Kind == token.STRING {
+			return "(s " + coqString(unquote(x)) + ")"
+		}
+	case *ast.BinaryExpr:
+		if x.Op == token.ADD {
+			return "(" + gccStrExpr(what, x.X, atoms) + " ++ " + gccStrExpr(what, x.Y, atoms) + ")"
+		}
+	case *ast.CallExpr:
+		if sel, ok := x.Fun.(*ast.SelectorExpr); ok && sel.Sel.Name == "String" && len(x.Args) == 0 {
+			if cl, ok := sel.X.(*ast.CompositeLit); ok {
+				sub, name := gccPackageKeyLit(what, cl, atoms)
+				return "(package_key_string " + sub + " " + name + ")"
+			}
+		}
+	}
+	txt := types.ExprString(e)
+	if v, ok := atoms[txt]; ok {
+		return v
+	}
+	failShape("%s: the sub-expression `%s` is not a string expression the C25 model knows (%v)", what, txt, gccKeys(atoms))
+	return ""
+}
+
+// gccPackageKeyLit reads packageKey{Subrepo: a, Name: b} (keyed fields, any order, a missing field is
+// the empty string) and returns the translated (subrepo, name).
+func gccPackageKeyLit(what string, cl *ast.CompositeLit, atoms map[string]string) (sub, name string) {
+	if id, ok := cl.Type.(*ast.Ident); !ok || id.Name != "packageKey" {
+		failShape("%s: composite literal of type %s, expected packageKey", what, types.ExprString(cl.Type))
+	}
+	sub, name = `(s "")`, `(s "")`
+	seen := map[string]bool{}
+	for _, el := range cl.Elts {
+		kv, ok := el.(*ast.KeyValueExpr)
+		if !ok {
+			failShape("%s: packageKey literal with positional fields", what)
+		}
+		k, ok := kv.Key.(*ast.Ident)
+		if !ok || seen[k.Name] {
+			failShape("%s: packageKey literal with an unreadable or repeated field", what)
+		}
+		seen[k.Name] = true
+		switch k.Name {
+		case "Subrepo":
+			sub = gccStrExpr(what, kv.Value, atoms)
+		case "Name":
+			name = gccStrExpr(what, kv.Value, atoms)
+		default:
+			failShape("%s: packageKey has no field %s in the C25 model", what, k.Name)
+		}
+	}
+	return sub, name
+}
+
+// gccStrCond translates a boolean expression over comparisons of string expressions.
+func gccStrCond(what string, e ast.Expr, atoms map[string]string) string {
+	switch x := e.(type) {
+	case *ast.ParenExpr:
+		return gccStrCond(what, x.X, atoms)
+	case *ast.UnaryExpr:
+		if x.Op == token.NOT {
+			return "(negb " + gccStrCond(what, x.X, atoms) + ")"
+		}
+	case *ast.BinaryExpr:
+		switch x.Op {
+		case token.LAND:
+			return "(" + gccStrCond(what, x.X, atoms) + " && " + gccStrCond(what, x.Y, atoms) + ")"
+		case token.LOR:
+			return "(" + gccStrCond(what, x.X, atoms) + " || " + gccStrCond(what, x.Y, atoms) + ")"
+		case token.EQL:
+			return "(str_eqb " + gccStrExpr(what, x.X, atoms) + " " + gccStrExpr(what, x.Y, atoms) + ")"
+		case token.NEQ:
+			return "(negb (str_eqb " + gccStrExpr(what, x.X, atoms) + " " + gccStrExpr(what, x.Y, atoms) + "))"
+		}
+	}
+	failShape("%s: the condition `%s` is not a comparison of strings the C25 model knows", what, types.ExprString(e))
+	return ""
+}
+
+// gccReturnChain translates `if c1 { return e1 } ... return en` into nested Gallina ifs.
+func gccReturnChain(what string, stmts []ast.Stmt, atoms map[string]string) string {
+	if len(stmts) == 0 {
+		failShape("%s: falls off the end without a return", what)
+	}
+	switch x := stmts[0].(type) {
+	case *ast.ReturnStmt:
+		if len(x.Results) != 1 || len(stmts) != 1 {
+			failShape("%s: a return that is not the last statement or does not return one value", what)
+		}
+		return gccStrExpr(what, x.Results[0], atoms)
+	case *ast.IfStmt:
+		if x.Init != nil || x.Else != nil {
+			failShape("%s: an if statement with an initialiser or an else branch", what)
+		}
+		return "(if " + gccStrCond(what, x.Cond, atoms) + " then " + gccReturnChain(what, x.Body.List, atoms) +
+			" else " + gccReturnChain(what, stmts[1:], atoms) + ")"
+	}
+	failShape("%s: statement `%T` is neither `if c { return e }` nor `return e`", what, stmts[0])
+	return ""
+}
+
+func init() {
+	targets["GcPkgMap"] = func() string {
+		var out strings.Builder
+		out.WriteString("From PlzV Require Import Base.Harness.\n")
+		out.WriteString("(* property C25: the keys BuildGraph.AddPackage / BuildGraph.PackageMap() (src/core/graph.go) file a package\n" +
+			"   under and packageKey.String() (src/core/build_label.go), translated from the Go expressions;\n" +
+			"   see harness/cmd/gotrans/gcconds.go *)\nModule GcPkgMap.\n")
+
+		// ---- packageKey.String() ----------------------------------------------------------------------
+		_, fl := parseFile("src/core/build_label.go")
+		ks := findFunc(fl, "packageKey", "String")
+		if ks.Recv.List[0].Names == nil || len(ks.Recv.List[0].Names) != 1 || ks.Recv.List[0].Names[0].Name != "key" {
+			failShape("packageKey.String: the receiver is not called `key`")
+		}
+		if _, isPtr := ks.Recv.List[0].Type.(*ast.StarExpr); isPtr {
+			failShape("packageKey.String: pointer receiver")
+		}
+		keyAtoms := map[string]string{"key.Subrepo": "sub", "key.Name": "name"}
+		fmt.Fprintf(&out, "(* packageKey.String() *)\nDefinition package_key_string (sub name : str) : str := %s.\n",
+			gccReturnChain("packageKey.String", ks.Body.List, keyAtoms))
+		// the struct itself: two string fields, nothing else takes part in the identity of a package
+		found := false
+		for _, d := range fl.Decls {
+			gd, ok := d.(*ast.GenDecl)
+			if !ok || gd.Tok != token.TYPE {
+				continue
+			}
+			for _, sp := range gd.Specs {
+				ts := sp.(*ast.TypeSpec)
+				if ts.Name.Name != "packageKey" {
+					continue
+				}
+				found = true
+				st, ok := ts.Type.(*ast.StructType)
+				if !ok {
+					failShape("packageKey is not a struct")
+				}
+				fields := []string{}
+				for _, fld := range st.Fields.List {
+					if id, ok := fld.Type.(*ast.Ident); !ok || id.Name != "string" {
+						failShape("packageKey has a field that is not a string")
+					}
+					for _, n := range fld.Names {
+						fields = append(fields, n.Name)
+					}
+				}
+				sortStrings(fields)
+				if strings.Join(fields, ",") != "Name,Subrepo" {
+					failShape("packageKey has the fields %v, the C25 model was written from Name, Subrepo", fields)
+				}
+			}
+		}
+		if !found {
+			failShape("type packageKey not found in src/core/build_label.go")
+		}
+
+		// ---- PackageMap() and AddPackage --------------------------------------------------------------
+		fset, fg := parseFile("src/core/graph.go")
+		pkgAtoms := map[string]string{"pkg.SubrepoName": "sub", "pkg.Name": "name"}
+		pm := findFunc(fg, "BuildGraph", "PackageMap")
+		var keyExpr ast.Expr
+		ast.Inspect(pm.Body, func(x ast.Node) bool {
+			if as, ok := x.(*ast.AssignStmt); ok && len(as.Lhs) == 1 && len(as.Rhs) == 1 {
+				if ix, ok := as.Lhs[0].(*ast.IndexExpr); ok {
+					if keyExpr != nil {
+						failShape("PackageMap: more than one map assignment")
+					}
+					keyExpr = ix.Index
+					ix.Index = ast.NewIdent("KEY")
+				}
+			}
+			return true
+		})
+		if keyExpr == nil {
+			failShape("PackageMap: no map assignment found")
+		}
+		fmt.Fprintf(&out, "(* BuildGraph.PackageMap() files pkg under:  %s *)\nDefinition pkgmap_key (sub name : str) : str := %s.\n",
+			gccText(fset, keyExpr), gccStrExpr("PackageMap key", keyExpr, pkgAtoms))
+		gccPin("BuildGraph.PackageMap (skeleton)", gccText(fset, pm.Body), `{
+			packages := map[string]*Package{}
+			for _, pkg := range graph.packages.Values() { packages[KEY] = pkg }
+			return packages }`)
+
+		ap := findFunc(fg, "BuildGraph", "AddPackage")
+		if len(ap.Body.List) == 0 {
+			failShape("AddPackage: empty body")
+		}
+		as, ok := ap.Body.List[0].(*ast.AssignStmt)
+		if !ok || len(as.Lhs) != 1 || len(as.Rhs) != 1 || types.ExprString(as.Lhs[0]) != "key" {
+			failShape("AddPackage: the first statement is not `key := ...`")
+		}
+		cl, ok := as.Rhs[0].(*ast.CompositeLit)
+		if !ok {
+			failShape("AddPackage: key is not a packageKey literal")
+		}
+		ssub, sname := gccPackageKeyLit("AddPackage key", cl, pkgAtoms)
+		fmt.Fprintf(&out, "(* BuildGraph.AddPackage stores pkg under the struct (compared field by field):  %s *)\n"+
+			"Definition store_key (sub name : str) : str * str := (%s, %s).\n", gccText(fset, as.Rhs[0]), ssub, sname)
+		as.Rhs[0] = ast.NewIdent("KEY")
+		gccPin("BuildGraph.AddPackage (skeleton)", gccText(fset, ap.Body), `{
+			key := KEY
+			if !graph.packages.Add(key, pkg) { panic("Attempt to re-add existing package: " + key.String()) } }`)
+		out.WriteString("End GcPkgMap.\n")
+		return out.String()
+	}
+}
+
+func sortStrings(xs []string) {
+	for i := 1; i < len(xs); i++ {
+		for j := i; j > 0 && xs[j] < xs[j-1]; j-- {
+			xs[j], xs[j-1] = xs[j-1], xs[j]
+		}
+	}
+}
